@@ -37,6 +37,8 @@ def cases(draw):
         "hundredths": draw(st.one_of(st.sampled_from([0, 99]), st.integers(0, 99))),
         "policy": draw(st.sampled_from(["decoy", "decoy", "blank"])),
         "vseed": draw(st.integers(0, 2**32 - 1)),
+        # bytes after the text record (block padding / a further record)
+        "trailing": draw(st.sampled_from([None, None, {"volume": "blank"}, {"volume": "nul"}, {"volume": "text"}, {"volume": "random"}])),
     }
 
 
